@@ -270,7 +270,7 @@ DoInputImplementation(AbstractGatewayMessageReceiver & receiver, uint32 maxBytes
                const status_t bsRet = GetBodySize(bb->GetBuffer(), bodySize);
                if (bsRet.IsOK())
                {
-                  if (bodySize <= _maxIncomingMessageSize)
+                  if ((bodySize <= _maxIncomingMessageSize)&&(bodySize <= (MUSCLE_NO_LIMIT-hs)))  // the second test keeps (hs+bodySize) from wrapping around
                   {
                      const uint32 availableBodyBytes = (bb->GetNumBytes() > hs) ? (bb->GetNumBytes()-hs) : 0;
                      if (bodySize <= availableBodyBytes) bb->TruncateToLength(hs+bodySize);  // trim off any extra space we don't need
